@@ -53,6 +53,13 @@ def scenarios(rng, tier):
         if rng.random() < 0.5:
             rows = ["".join(c.lower() if rng.random() < 0.3 else c for c in r) for r in rows]
         S.append(dict(id="syn_W%d" % W, mode="synthetic", names=names, rows=rows))
+    # the longest names the property allows, with full 60-column blocks (row lines of 254..265 characters in the block formats)
+    for nl in ([189, 190, 200] if tier == "quick" else [128, 188, 189, 190, 191, 192, 199, 200]):
+        rows = aligned_rows(rng, 3, rng.choice([60, 75, 120]), "ACGT")
+        names = ["".join(rng.choice("abcXYZ019_.|-") for _ in range(nl - 2)) + "q%d" % i for i in range(3)]
+        names = [("n" + x[1:]) if x[0] in "-.|" else x for x in names]
+        names[1] = names[1][: max(1, nl // 2)]
+        S.append(dict(id="name_%d" % nl, mode="synthetic", names=names, rows=rows))
     # rows longer than the reader's 512-residue growth step, with gap runs exactly around the growth boundaries
     for nres in ([514, 1030] if tier == "quick" else [511, 512, 513, 514, 1024, 1025, 1030, 1540]):
         rows = boundary_rows(rng, 3, nres, "ACGT", [1, 2, 511, 512, 513, 514, 1023, 1024, 1025, 1026, 1536, 1537])
